@@ -28,6 +28,7 @@ def run(ck, prog):
         "count mod 50) and compared with the stated one. set_HTMLColorResiduePalette is evaluated for a valid palette and "
         "for every (key, defect) pair; the state stored on each path shows validate-then-commit.")
     ck.attempt(_html, ck, prog)
+    ck.attempt(_commit_order, ck, prog)
     ck.attempt(_palette, ck, prog)
     ck.attempt(_tables, ck, prog)
     check_api(ck, prog, [("get_HTMLColorString", "get_HTMLColorString", None)])
@@ -122,6 +123,63 @@ def _html(ck, prog):
           where=f.loc())
 
 
+def _commit_order(ck, prog):
+    """FLOW typestate over the setter: state 'clean' -> 'written' at the first statement that may change the stored palette (rebinding, item store,
+    in-place method, or a call of a method whose effect summary writes it, also through a local alias); a `raise` reached in state 'written' means a
+    rejected dictionary has already altered the palette."""
+    from lcsa import flow
+    from lcsa.eff import Effects
+    f = prog.fn(SEQ, "Sequence.set_HTMLColorResiduePalette")
+    construct = SEQ_PATH + ":Sequence.set_HTMLColorResiduePalette"
+    E = Effects(prog)
+    aliases = {n.targets[0].id for n in ast.walk(f.node) if isinstance(n, ast.Assign) and len(n.targets) == 1 and isinstance(n.targets[0], ast.Name)
+               and is_self_attr(n.value, "aminoAcidColorMap")}
+
+    def is_map(x):
+        return is_self_attr(x, "aminoAcidColorMap") or (isinstance(x, ast.Name) and x.id in aliases)
+
+    def writes(node):
+        for n in ast.walk(node):
+            if isinstance(n, (ast.Assign, ast.AugAssign, ast.AnnAssign, ast.Delete)):
+                ts = n.targets if isinstance(n, (ast.Assign, ast.Delete)) else [n.target]
+                for t in ts:
+                    for x in ast.walk(t):
+                        if is_self_attr(x, "aminoAcidColorMap") and isinstance(x.ctx, (ast.Store, ast.Del)):
+                            return n
+                        if isinstance(x, ast.Subscript) and is_map(x.value) and isinstance(x.ctx, (ast.Store, ast.Del)):
+                            return n
+            if isinstance(n, ast.Call) and isinstance(n.func, ast.Attribute):
+                if is_map(n.func.value) and n.func.attr in ("update", "clear", "pop", "popitem", "setdefault", "__setitem__", "__delitem__"):
+                    return n
+                if unparse(n.func) in ("setattr",):
+                    return n
+                callee = prog.resolve_call(f, n)
+                if callee is not None and callee.key != f.key and callee.key in E.sum and isinstance(n.func.value, ast.Name) and n.func.value.id == "self" \
+                        and any(p.split(".")[0] == "aminoAcidColorMap" for p in E.sum[callee.key].self_writes):
+                    return n
+            if isinstance(n, ast.Call) and unparse(n.func) == "setattr" and n.args and unparse(n.args[0]) == "self":
+                return n
+        return None
+    first = {}
+
+    def step(node, st):
+        if st == "clean":
+            w = writes(node)
+            if w is not None:
+                first.setdefault("w", w)
+                return "written"
+        return st
+    fall, exits = flow.run(f.body(), "clean", step)
+    raises = [e for e in exits if e.kind == "raise"]
+    ck.shape(bool(raises), "palette setter: rejects through explicit raise statements", f.loc())
+    ck.shape("written" in fall | {e.state for e in exits if e.kind == "return"}, "palette setter: an accepting path that stores the palette", f.loc())
+    bad = [e for e in raises if e.state == "written"]
+    ck.ob("ORDER-commit", construct, not bad, expected="every rejecting `raise` is reached with the stored palette untouched (validate everything, then commit)",
+          found=[{"raise": f.loc(e.node), "after_write": f.loc(first["w"])} for e in bad][:3] or "no raise after a write", slot="raise-after-write", where=f.loc(),
+          note="a palette edited entry by entry while it is still being validated keeps the entries written before the offending one")
+    ck.count("rejecting exits examined", len(raises))
+
+
 def _run_setter(prog, palette):
     f = prog.fn(SEQ, "Sequence.set_HTMLColorResiduePalette")
     ev = Evaluator(prog)
@@ -167,15 +225,25 @@ def _palette(ck, prog):
     # the committed map is a fresh object, not the caller's dictionary
     stores = [n for n in ast.walk(f.node) if isinstance(n, ast.Assign) and any(is_self_attr(t, "aminoAcidColorMap") for t in n.targets)]
     param = f.params()[1]
-    fresh = bool(stores) and all(isinstance(s.value, ast.Dict) or (isinstance(s.value, ast.Call) and getattr(s.value.func, "id", None) == "dict")
-                                 or (isinstance(s.value, ast.Name) and s.value.id != param and _local_fresh_dict(f, s.value.id)) for s in stores)
+    ck.shape(bool(stores), "palette setter: a store to self.aminoAcidColorMap", f.loc())
+
+    def kind(v):
+        if isinstance(v, ast.Name) and v.id == param:
+            return "caller"
+        if isinstance(v, (ast.Dict, ast.DictComp)) or (isinstance(v, ast.Call) and getattr(v.func, "id", None) == "dict") \
+                or (isinstance(v, ast.Call) and getattr(v.func, "attr", None) == "copy") \
+                or (isinstance(v, ast.Name) and _local_fresh_dict(f, v.id)):
+            return "fresh"
+        return None
+    kinds = [kind(s.value) for s in stores]
+    ck.shape(all(k is not None for k in kinds), "palette setter: committed value in an unrecognised form", f.loc())
+    fresh = all(k == "fresh" for k in kinds)
     ck.ob("ALIAS", construct, fresh, expected="the committed palette is a new dict (later edits of the caller's dict cannot leak in)",
           found=[unparse(s) for s in stores], slot="fresh-copy", where=f.loc())
     # the loop runs over the 20 keys
     loops = [s for s in f.body() if isinstance(s, ast.For)]
-    it = unparse(loops[0].iter).replace(".keys()", "") if loops else None
-    ck.ob("DOM", construct, it in ("aminoacids.ONE_TO_THREE", "data.aminoacids.ONE_TO_THREE", "ONE_TO_THREE", "aminoacids.TWENTY_AAs", "TWENTY_AAs"),
-          expected="validation loop over the 20 amino-acid letters", found=it, slot="keys", where=f.loc())
+    # (the per-key evaluation above already decides that every one of the 20 keys is validated; the iteration source is informational)
+    ck.count("validation loops", len(loops))
 
 
 def _local_fresh_dict(f, name):
@@ -214,7 +282,8 @@ def _tables(ck, prog):
           expected="20 keys, every value one of the 17 names", found={k: v for k, v in pal.items() if v not in COLOURS} or sorted(pal), slot="default-palette")
     g = prog.fn(SEQ, "Sequence.__init__")
     inits = [n for n in ast.walk(g.node) if isinstance(n, ast.Call) and getattr(n.func, "attr", "") == "set_HTMLColorResiduePalette"]
-    ck.ob("TAB-colours", SEQ_PATH + ":Sequence.__init__", len(inits) == 1 and unparse(inits[0].args[0]).endswith("DEFAULT_COLOR_PALETTE"),
+    ck.shape(len(inits) == 1 and inits[0].args, "Sequence.__init__: the palette is initialised through the validating setter", g.loc())
+    ck.ob("TAB-colours", SEQ_PATH + ":Sequence.__init__", unparse(inits[0].args[0]).endswith("DEFAULT_COLOR_PALETTE"),
           expected="a new object starts with the default palette (through the validating setter)", found=[unparse(i) for i in inits], slot="initial-palette",
           where=g.loc())
 
